@@ -64,6 +64,12 @@ def accn(st, x):
     return (st or 0) + 10 * x
 
 
+def failadd(st, x):
+    if x == 2:
+        raise ZeroDivisionError("injected: the accumulating task fails on the cluster for element 2")
+    return st + x
+
+
 def wrap(x):
     return (x,)
 
@@ -119,6 +125,7 @@ PROGS = {
     # the mapped function fails for one element: the emitter gets the error, later elements flow on
     "map.fail": lambda s: s.map(failon2),
     "map.fail.map": lambda s: s.map(failon2).map(times10),
+    "acc.fail": lambda s: s.accumulate(failadd, start=0),
     # one emit delivers three elements to partition(2): the third arrives while the flush of
     # the first two is still being delivered through gather
     "fan3.union.partition": lambda s: s.map(inc).union(s.map(times10), s.map(neg)).partition(2),
@@ -482,6 +489,8 @@ def conformance(ctx):
     async def run():
         async with Client(processes=False, n_workers=1, threads_per_worker=2, dashboard_address=None, asynchronous=True) as client:
             for prog in PROGS:
+                if prog == "acc.fail":
+                    continue        # recorded finding (the real cluster shows the same poisoned state); not a question of the fake
                 s = Stream(asynchronous=True)
                 L = []
                 global DASK
